@@ -173,6 +173,60 @@ def server_reset(chk, rule: str):
             chk.check(attr in set_in_init, rule, f"{SV}:SdoServer.{ini} | per-transfer state self.{attr} is set when a transfer starts", fseg.loc(st),
                       f"{seg}() advances self.{attr} (`{src(st)[:50]}`) but {ini}() never sets it: after a transfer that was abandoned half-way the next one starts from the stale value")
 
+    # what one initiate handler resets, the other resets too if its own direction consults it: per-transfer memory (a remembered
+    # request, a retransmission record, a count) that only one direction clears is carried from a finished or abandoned transfer
+    # into the first segment of the next transfer of the other direction.  Decided on the source as written.
+    try:
+        raw = ast.parse(repo.modules_by_rel[SV].src) if hasattr(repo, "modules_by_rel") else ast.parse(next(m for m in repo.modules.values() if m.rel == SV).src)
+    except (SyntaxError, StopIteration):
+        return
+    sv = next((n for n in ast.walk(raw) if isinstance(n, ast.ClassDef) and n.name == "SdoServer"), None)
+    if sv is None:
+        return
+    meths = {f_.name: f_ for f_ in sv.body if isinstance(f_, ast.FunctionDef)}
+    if not all(k in meths for k in ("on_request", "init_upload", "init_download")):
+        return
+
+    def const_resets(fn):
+        out = {}
+        for n in ast.walk(fn):
+            if isinstance(n, ast.Assign) and isinstance(n.value, ast.Constant):
+                for t in n.targets:
+                    if isinstance(t, ast.Attribute) and dotted(t.value) == "self":
+                        out[t.attr] = n
+        return out
+
+    def reads_of(nodes, depth=2):
+        got = set()
+        for b in nodes:
+            for x in ast.walk(b):
+                if isinstance(x, ast.Attribute) and isinstance(x.ctx, ast.Load) and dotted(x.value) == "self":
+                    got.add(x.attr)
+                if depth and isinstance(x, ast.Call) and isinstance(x.func, ast.Attribute) and dotted(x.func.value) == "self" and x.func.attr in meths \
+                        and x.func.attr not in ("abort", "send_response", "init_upload", "init_download"):
+                    got |= reads_of(meths[x.func.attr].body, depth - 1)
+        return got
+
+    def seg_branch(direction):
+        want = "REQUEST_SEGMENT_" + direction.upper()
+        for n in ast.walk(meths["on_request"]):
+            if isinstance(n, ast.If) and want in src(n.test):
+                return n.body
+        return []
+    resets = {"upload": const_resets(meths["init_upload"]), "download": const_resets(meths["init_download"])}
+    for d, other in (("upload", "download"), ("download", "upload")):
+        consulted = reads_of(seg_branch(other))
+        for attr, st in sorted(resets[d].items()):
+            if attr in resets[other] or attr not in consulted:
+                continue
+            written_elsewhere = any(isinstance(n, ast.Assign) and not isinstance(n.value, ast.Constant) and any(isinstance(t, ast.Attribute) and t.attr == attr and dotted(t.value) == "self" for t in n.targets)
+                                    for k_, f_ in meths.items() if k_ != "__init__" for n in ast.walk(f_))
+            if not written_elsewhere:
+                continue
+            chk.bad(rule, f"{SV}:SdoServer.init_{other} | per-transfer memory self.{attr} is reset by both initiate handlers", f"{SV}:{meths['init_' + other].lineno}",
+                    f"init_{d}() resets self.{attr} (`{src(st)}`) and the segment path of the {other} direction consults it, but init_{other}() leaves it alone: what was remembered "
+                    f"during an earlier transfer answers for the first segment of the next {other}")
+
 
 def store_exact(chk, rule: str):
     """LocalNode.set_data stores an immutable copy of exactly the payload it was given."""
@@ -402,6 +456,7 @@ def isolation(chk, rule: str, rels=None):
     logging_inert(chk, rule, rels)
     none_is_not_zero(chk, rule, rels)
     lock_discipline(chk, rule, rels)
+    memo_soundness(chk, rule, rels)
     tdef = ast.parse("class S:\n    def __init__(self, callbacks=[]):\n        self.callbacks = callbacks\n").body[0].body[0]
     chk.fixture(rule, "mutable default stored on the instance", _mutable_default_escape(tdef) is not None)
     t = ast.parse("class S:\n    _buffer = bytearray()\n    def f(self, d):\n        b = self._buffer\n        b[:] = d\n")
@@ -1048,3 +1103,148 @@ def lock_discipline(chk, rule: str, rels=None):
                                 f"`with self.{held[0]}:` is held across an SDO access (`{src(hit)[:50]}`), and the receive callback of this class takes the same lock: a frame for that "
                                 f"callback queued ahead of the SDO response blocks the only receiving thread, the response is never dispatched and the exchange times out")
     chk.ok(rule, f"{'package' if rels is None else ', '.join(sorted(rels))} | receive-callback locks are not held across SDO exchanges", "canopen/", f"{n_cb} with-blocks on callback locks outside callbacks")
+
+
+# --------------------------------------------------------------------------------------------------
+# memo soundness: a look-up memory the pinned tree does not have answers for the computation it replaces only if (a) its key
+# tells apart all inputs the computation tells apart and (b) it does not outlive what it was computed from.
+
+_MEMO_PROBES = (1, 2, 3, 7, 8, 0xFF, 0x100, 0x1000, 0x1018, 0x1A00, 0x2030, 0x3020, 0x6040, 0xFFFF, 0)
+_OD_ROOTS = ("self.object_dictionary", "self.od", "self.node.object_dictionary", "self._node.object_dictionary")
+_SERVER_SIDE = ("canopen/node/local.py", "canopen/sdo/server.py")
+
+
+def _reference_text(rel) -> str:
+    import json
+    _reference_funcs(rel)
+    mod = _REF_CACHE["ref"].get(rel, {})
+    return "\n".join(f.get("src", "") for f in mod.get("funcs", {}).values()) + "\n" + json.dumps(mod.get("class_attrs", {})) + json.dumps(mod.get("init_attr_order", {}))
+
+
+def _memo_sites(cls_node):
+    """[(attr, method node, key expr of the store, stored value expr, store stmt)] for `self.<attr>[K] = V` where the same method also
+    looks `self.<attr>` up (subscript read, .get, membership)."""
+    out = []
+    for meth in [f for f in cls_node.body if isinstance(f, ast.FunctionDef) and f.name != "__init__"]:
+        stores, reads = [], set()
+        for n in ast.walk(meth):
+            if isinstance(n, ast.Assign) and len(n.targets) == 1 and isinstance(n.targets[0], ast.Subscript) and isinstance(n.targets[0].value, ast.Attribute) \
+                    and dotted(n.targets[0].value.value) == "self":
+                stores.append((n.targets[0].value.attr, n.targets[0].slice, n.value, n))
+            elif isinstance(n, ast.Subscript) and isinstance(n.ctx, ast.Load) and isinstance(n.value, ast.Attribute) and dotted(n.value.value) == "self":
+                reads.add(n.value.attr)
+            elif isinstance(n, ast.Call) and isinstance(n.func, ast.Attribute) and n.func.attr == "get" and isinstance(n.func.value, ast.Attribute) and dotted(n.func.value.value) == "self":
+                reads.add(n.func.value.attr)
+            elif isinstance(n, ast.Compare) and any(isinstance(o, (ast.In, ast.NotIn)) for o in n.ops):
+                for c in n.comparators:
+                    if isinstance(c, ast.Attribute) and dotted(c.value) == "self":
+                        reads.add(c.attr)
+        for a, k, v, st in stores:
+            if a in reads:
+                out.append((a, meth, k, v, st))
+    return out
+
+
+def _single_def(meth, name):
+    defs = [n for n in ast.walk(meth) if isinstance(n, ast.Assign) and len(n.targets) == 1 and isinstance(n.targets[0], ast.Name) and n.targets[0].id == name]
+    return defs[0].value if len(defs) == 1 else None
+
+
+def _memo_key_collision(folder, mod, key, params):
+    """Two distinct parameter tuples with the same key, or None.  Keys that are a parameter, or a tuple whose elements are distinct
+    parameters / attributes / literals, are injective by construction; anything else is folded over a grid of probe values."""
+    import itertools
+    if isinstance(key, ast.Name):
+        return None
+    if isinstance(key, ast.Tuple) and all(isinstance(e, (ast.Name, ast.Attribute, ast.Constant)) for e in key.elts):
+        return None
+    used = [p for p in params if any(isinstance(x, ast.Name) and x.id == p for x in ast.walk(key))]
+    if len(used) < 2 or len(used) > 3:
+        return None
+    seen = {}
+    for vals in itertools.product(_MEMO_PROBES, repeat=len(used)):
+        try:
+            k = folder.fold(key, Scope(mod, None, dict(zip(used, vals))))
+            hash(k)
+        except Exception:  # noqa  (not foldable: not decided)
+            return None
+        if k in seen and seen[k] != vals:
+            return used, seen[k], vals, k
+        seen[k] = vals
+    return None
+
+
+def memo_soundness(chk, rule: str, rels=None):
+    """A dictionary on `self` that the pinned tree does not have, filled with the result of a computation and consulted before that
+    computation, must (a) be keyed so that inputs the computation distinguishes get distinct keys (every parameter the stored value
+    is computed from appears in the key; arithmetic keys are folded over a grid of addresses and must not collide), and (b) on the
+    serving side -- where the object dictionary decides which accesses are refused -- be emptied somewhere when it remembers
+    object-dictionary look-ups (entries can be deleted and re-defined at run time).  Decided on the source as written."""
+    repo, folder = ctx(chk)
+    n_memo = 0
+    for m in repo.modules.values():
+        if rels is not None and m.rel not in rels:
+            continue
+        try:
+            raw = ast.parse(m.src)
+        except SyntaxError:
+            continue
+        ref_text = _reference_text(m.rel)
+        for c in [n for n in ast.walk(raw) if isinstance(n, ast.ClassDef)]:
+            meths = {f_.name: f_ for f_ in c.body if isinstance(f_, ast.FunctionDef)}
+            for attr, meth, key, val, st in _memo_sites(c):
+                if attr in ref_text:
+                    continue                       # state the pinned tree already has: decided by the property's own rules
+                n_memo += 1
+                params = [a.arg for a in meth.args.posonlyargs + meth.args.args + meth.args.kwonlyargs if a.arg != "self"]
+                if isinstance(key, ast.Name) and key.id not in params:
+                    key = _single_def(meth, key.id) or key
+                site = f"{m.rel}:{c.name}.{meth.name} | memo self.{attr}"
+                where = f"{m.rel}:{st.lineno}"
+                hit = _memo_key_collision(folder, m, key, params)
+                if hit is not None:
+                    used, a_, b_, k = hit
+                    chk.bad(rule, f"{site} keyed injectively", where,
+                            f"key `{src(key)}` gives {k!r} both for ({', '.join(f'{p}={v:#x}' for p, v in zip(used, a_))}) and for "
+                            f"({', '.join(f'{p}={v:#x}' for p, v in zip(used, b_))}): the second of two such accesses is answered with what was remembered for the first")
+                    continue
+                # (a) completeness: parameters the remembered value is computed from
+                vexpr = val
+                if isinstance(vexpr, ast.Name):
+                    vexpr = _single_def(meth, vexpr.id) or vexpr
+                dep = {x.id for x in ast.walk(vexpr) if isinstance(x, ast.Name) and x.id in params}
+                keyed = {x.id for x in ast.walk(key) if isinstance(x, ast.Name)}
+                missing = sorted(dep - keyed)
+                if missing and keyed:
+                    chk.bad(rule, f"{site} keyed by everything the value depends on", where,
+                            f"`{src(st)[:70]}` remembers a value computed from {sorted(dep)} under the key `{src(key)}`, which ignores {missing}: calls that differ only in "
+                            f"{missing[0]} get the answer of the first one")
+                    continue
+                # (b) serving side: remembered object-dictionary look-ups are emptied somewhere
+                if m.rel in _SERVER_SIDE:
+                    texts = [src(vexpr)]
+                    for x in ast.walk(vexpr):
+                        if isinstance(x, ast.Call) and isinstance(x.func, ast.Attribute) and dotted(x.func.value) == "self" and x.func.attr in meths:
+                            texts.append(ast.unparse(meths[x.func.attr]))
+                    from_od = any(r in t for t in texts for r in _OD_ROOTS)
+                    emptied = False
+                    for other in meths.values():
+                        for n in ast.walk(other):
+                            if isinstance(n, ast.Call) and isinstance(n.func, ast.Attribute) and n.func.attr in ("clear", "pop", "popitem") and src(n.func.value) == f"self.{attr}":
+                                emptied = True
+                            if isinstance(n, ast.Delete) and any(f"self.{attr}" in src(t) for t in n.targets):
+                                emptied = True
+                            if other.name != "__init__" and isinstance(n, ast.Assign) and any(dotted(t) == f"self.{attr}" for t in n.targets):
+                                emptied = True
+                    if from_od and not emptied:
+                        chk.bad(rule, f"{site} does not outlive the dictionary entries it remembers", where,
+                                f"`{src(st)[:70]}` remembers the result of an object-dictionary look-up and nothing ever empties self.{attr}: after an entry is deleted or "
+                                f"re-defined at run time, an access that must be refused (object / sub-index does not exist) is served from the remembered entry")
+                        continue
+                chk.ok(rule, site, where, f"key `{src(key)}`")
+    chk.ok(rule, f"{'package' if rels is None else ', '.join(sorted(rels))} | look-up memories are keyed by their inputs and emptied with their source", "canopen/", f"{n_memo} fresh memo sites")
+    t = ast.parse("class S:\n    def f(self, index, subindex):\n        key = index << 8 + subindex\n        v = self._m.get(key)\n        if v is None:\n"
+                  "            v = self.od.get_variable(index, subindex)\n            self._m[key] = v\n        return v\n")
+    sites = _memo_sites(t.body[0])
+    fired = bool(sites) and _memo_key_collision(folder, next(iter(repo.modules.values())), _single_def(sites[0][1], "key"), ["index", "subindex"]) is not None
+    chk.fixture(rule, "memo key `index << 8 + subindex` collides", fired)
